@@ -147,6 +147,16 @@ def analyse(repo):
     f['mergeSkipsKnownAndRemoved'] = all(x in merge for x in ('items -= setdata2', 'if setdata2.removed:\n', 'items -= setdata2.removed', 'setdata2 |= items'))
     mark = next((s for s in fn.body if isinstance(s, ast.For) and src(s.iter) == 'setdata_list'), None)
     f['batchMarksFull'] = bool(mark) and [src(x) for x in mark.body] == ['setdata2.is_fully_loaded = True', 'setdata2.absent = None', 'setdata2.count = len(setdata2)']
+    # ---- loaded values are converted with the object at hand (Json / array values become tracked containers bound to it)
+    dbs = src(find_method(core, 'Attribute', 'db_set'))
+    ent = src(find_method(core, 'Entity', '_db_set_'))
+    calls_a = [n for n in ast.walk(find_method(core, 'Attribute', 'db_set')) if isinstance(n, ast.Call) and src(n.func).endswith('.dbval2val')]
+    calls_e = [n for n in ast.walk(find_method(core, 'Entity', '_db_set_')) if isinstance(n, ast.Call) and src(n.func).endswith('.dbval2val')]
+    if not calls_a or not calls_e: raise Unknown('db_set / _db_set_: no dbval2val conversion found')
+    f['dbSetBindsObj'] = all(len(c.args) == 2 and src(c.args[1]) == 'obj' for c in calls_a)
+    f['rowSetBindsObj'] = all(len(c.args) == 2 and src(c.args[1]) == 'obj' for c in calls_e)
+    al = src(find_method(core, 'Attribute', 'load'))
+    if 'attr.db_set(obj, dbval)' not in al: raise Unknown('Attribute.load: the lazy value no longer goes through attr.db_set(obj, dbval)')
     return f
 
 
@@ -178,6 +188,10 @@ def render(f):
          'def mergeSkipsKnownAndRemoved : Bool := ' + b(f['mergeSkipsKnownAndRemoved']),
          '/-- every member of the batch ends fully loaded, `absent = None`, `count = len` -/',
          'def batchMarksFull : Bool := ' + b(f['batchMarksFull']),
+         '/-- `Attribute.db_set` (lazy attribute fetched by the attribute access) converts with `dbval2val(dbval, obj)` -/',
+         'def dbSetBindsObj : Bool := ' + b(f['dbSetBindsObj']),
+         '/-- `Entity._db_set_` (rows fetched eagerly / by prefetch / by a query) converts with `dbval2val(dbval, obj)` -/',
+         'def rowSetBindsObj : Bool := ' + b(f['rowSetBindsObj']),
          '', 'end PonyVerif.Gen.LoadDecisions', '']
     return '\n'.join(L)
 
